@@ -226,6 +226,23 @@ impl<T: AsBuffer> BlockConverter<T> for H2BlockConverter<'_> {
         if matches!(kawa.parsing_phase, ParsingPhase::Error { .. }) {
             return false;
         }
+        // A trailer section is ONE HPACK header block: it is only started when
+        // the `Flags` block that closes it is queued. An HTTP/1.1 peer's trailer
+        // section can arrive in several reads (the parser is then in phase
+        // `Trailers`): the fields parsed so far used to be encoded (which
+        // inserts them in the encoder's dynamic table), then dropped by
+        // `finalize` ("out buffer not empty, clearing") because nothing closed
+        // the block in that pass. The field was lost and every later header
+        // block on the connection referenced table entries the peer never
+        // received. The fields stay queued until the section is complete.
+        if self.out.is_empty()
+            && matches!(block, Block::Header(_))
+            && matches!(kawa.parsing_phase, ParsingPhase::Trailers)
+            && !kawa.blocks.iter().any(|b| matches!(b, Block::Flags(_)))
+        {
+            kawa.blocks.push_front(block);
+            return false;
+        }
         let buffer = kawa.storage.buffer();
         // RFC 7541 §6.3: when the peer reduced SETTINGS_HEADER_TABLE_SIZE
         // (or changed it in any direction), the very first header block we
